@@ -198,6 +198,8 @@ def sext(a, w_from, w_to):
         return to_signed(a, w_from) & mask(w_to)
     if _av(a):
         return AIG.sext(a, w_from, w_to)
+    if _lv(a):
+        return LIMB.sext(a, w_from, w_to)
     return mk("sext", (a,), w_to, aux=w_from)
 
 
